@@ -5,6 +5,9 @@
 
 mod checks_c05;
 mod checks_codec;
+mod checks_conc;
+mod conc;
+mod lin;
 mod codec;
 mod checks_seq;
 mod checks_seq2;
@@ -87,11 +90,25 @@ fn run_check(id: &str, tier: Tier, seed: u64) -> i32 {
                 ),
             };
             run_seq(&chk, &mut rep, n);
-            rep.rule = format!("{}{}", RULE_HSEQ, rule);
+            let seq_rule = format!("{}{}", RULE_HSEQ, rule);
+            if id == "C15" {
+                // concurrent half: statistics at quiescence of scheduled / free-running executions
+                let seq_eval = rep.evaluations;
+                checks_conc::level_into(checks_conc::Which::C15, &mut rep);
+                rep.set("sequential_histories", serde_json::json!(seq_eval));
+                rep.rule = format!("{} || concurrent half: {}", seq_rule, rep.rule);
+            } else {
+                rep.rule = seq_rule;
+            }
             rep.finish()
         }
         "C05" => checks_c05::run(tier, seed),
         "C19" => checks_queue::run(tier, seed),
+        "C03" => checks_conc::run_level(checks_conc::Which::C03, tier, seed),
+        "C12" => checks_conc::run_level(checks_conc::Which::C12, tier, seed),
+        "C13" => checks_conc::run_level(checks_conc::Which::C13, tier, seed),
+        "C08" => checks_conc::run_c08(tier, seed),
+        "C14" => checks_conc::run_c14(tier, seed),
         "C16" => checks_codec::c16(tier, seed),
         "C17" => checks_codec::c17(tier, seed),
         "C18" => checks_codec::c18(tier, seed),
@@ -115,6 +132,7 @@ fn replay(path: &str) -> i32 {
     let r = &v["replay"];
     println!("replaying {}: {}", path, v["what"]);
     match r["engine"].as_str() {
+        Some("e1") => checks_conc::replay_e1(r),
         Some("hseq") => {
             let prop = r["property"].as_str().unwrap_or("");
             let chk = match prop {
